@@ -491,6 +491,7 @@ type FuncSpec struct {
 	Relation string // closure: spec relation name; RelOver: captured slice var
 	RelOver  string
 	Sets     []GhostSet // ghost assignments performed at function entry ("sets g = expr")
+	Reveals  []string   // opaque spec functions whose definitions this function's VC may use
 	Trusted  bool // contract is assumed, body not verified (extern/iface always)
 	File     string
 	Line     int
@@ -503,6 +504,7 @@ type GhostSet struct {
 }
 
 type SpecFunc struct {
+	Opaque  bool // body hidden (treated as uninterpreted) except in VCs that reveal it and in lemmas
 	Name    string
 	Params  []SBinder
 	Ret     string
@@ -539,7 +541,7 @@ func NewSpecDB() *SpecDB {
 
 var clauseKeywords = map[string]bool{"spec": true, "axiom": true, "lemma": true, "ghost": true, "func": true, "iface": true,
 	"extern": true, "params": true, "results": true, "requires": true, "ensures": true, "modifies": true, "loop": true,
-	"closure": true, "invariant": true, "relation": true, "trusted": true, "end": true, "sets": true}
+	"closure": true, "invariant": true, "relation": true, "trusted": true, "end": true, "sets": true, "reveals": true}
 
 // canonKey turns "Name", "(*T).M", "(T).M", "I.M" into a key qualified by pkg, unless already qualified (contains '/').
 func canonKey(pkg, name string) string {
@@ -630,12 +632,23 @@ func (db *SpecDB) LoadSpecFile(path, pkg string, stripPrefix bool) error {
 	}
 	for _, s := range stmts {
 		switch s.kw {
+		case "reveals":
+			if target == nil {
+				return fmt.Errorf("%s:%d: reveals outside func", path, s.n)
+			}
+			target.Reveals = append(target.Reveals, splitNames(s.rest)...)
 		case "spec":
+			opaque := false
+			if strings.HasPrefix(s.rest, "opaque ") {
+				opaque = true
+				s.rest = strings.TrimSpace(s.rest[len("opaque "):])
+			}
 			sf, err := parseSpecFuncDecl(s.rest)
 			if err != nil {
 				return fmt.Errorf("%s:%d: %v", path, s.n, err)
 			}
 			sf.Pkg, sf.File, sf.Line = pkg, path, s.n
+			sf.Opaque = opaque
 			if old, ok := db.SpecFuncs[pkg+"::"+sf.Name]; ok {
 				return fmt.Errorf("%s:%d: spec %s already defined at %s:%d", path, s.n, sf.Name, old.File, old.Line)
 			}
